@@ -424,16 +424,27 @@ func WriteAll(w *os.File, cases []Case) {
 	fmt.Fprintln(w, ClassLine(cases))
 	fmt.Fprintf(w, "FONTCFG\t%s\n", RepoFontSpec())
 	oracles := ""
+	var pending []Case // expectations about the next case, computed by the generator independently of the implementation
 	for _, c := range cases {
 		if _, ok := NIn[c.Kind]; !ok {
 			if c.Kind == "ORACLE" {
 				oracles = strings.Join(c.Fields, ",")
+			}
+			if c.Kind == "EXPECTLINES" || c.Kind == "EXPECTFMT" {
+				pending = append(pending, c)
+				continue
 			}
 			fmt.Fprintln(w, c.Kind+"\t"+strings.Join(c.Fields, "\t"))
 			continue
 		}
 		res := Run(c)
 		fmt.Fprintln(w, c.Kind+"\t"+strings.Join(c.Fields, "\t")+"\t"+res)
+		for _, x := range pending {
+			if msg := CheckExpectation(x, res); msg != "" {
+				fmt.Fprintln(w, "GOFAIL\t"+strings.ToLower(x.Kind)+"\t"+strings.ReplaceAll(msg, "\t", " "))
+			}
+		}
+		pending = nil
 		if c.Kind == "FMT" && strings.Contains(oracles, "fmt") {
 			if msg := CheckFmt(c.Fields, res); msg != "" {
 				fmt.Fprintln(w, "GOFAIL\tfmt\t"+strings.ReplaceAll(msg, "\t", " "))
@@ -468,4 +479,73 @@ func ReadInputs(path string) ([]Case, error) {
 		}
 	}
 	return out, nil
+}
+
+// outputLines splits an OK result into its lines.
+func outputLines(res string) ([]string, bool) {
+	p := strings.SplitN(res, "\t", 2)
+	if p[0] != "OK" || len(p) < 2 {
+		return nil, false
+	}
+	return strings.Split(Unhex(p[1]), "\n"), true
+}
+
+// CheckExpectation evaluates a generator-side expectation on the implementation's result.
+//   EXPECTLINES hex(lines):  the command lines of the output (tab lines, a final generated return aside) are exactly these
+//   EXPECTFMT label widths maxW cursor font numLines: the text emitted under label is a correct layout for these parameters
+func CheckExpectation(x Case, res string) string {
+	lines, ok := outputLines(res)
+	switch x.Kind {
+	case "EXPECTLINES":
+		if !ok {
+			return "the program is not accepted: " + strings.SplitN(res, "\t", 2)[0]
+		}
+		want := strings.Split(Unhex(x.Fields[0]), "\n")
+		var got []string
+		for _, l := range lines {
+			if strings.HasPrefix(l, "\t") {
+				got = append(got, l[1:])
+			}
+		}
+		if len(got) > 0 && got[len(got)-1] == "return" && (len(want) == 0 || len(got) == len(want)+1) {
+			got = got[:len(got)-1]
+		}
+		if strings.Join(got, "\n") != strings.Join(want, "\n") {
+			return fmt.Sprintf("commands do not pass through verbatim and in order: emitted %q, written %q", got, want)
+		}
+	case "EXPECTFMT":
+		if !ok {
+			return ""
+		}
+		label := x.Fields[0]
+		var parts []string
+		in := false
+		for _, l := range lines {
+			if l == label+":" || l == label+"::" {
+				in = true
+				continue
+			}
+			if in {
+				if strings.HasPrefix(l, "\t.") {
+					q := l[strings.Index(l, "\"")+1:]
+					if strings.HasSuffix(q, "\"") {
+						q = q[:len(q)-1]
+					}
+					parts = append(parts, q)
+				} else if !strings.HasPrefix(l, "# ") {
+					break
+				}
+			}
+		}
+		if !in {
+			return "formatted text label " + label + " is not defined"
+		}
+		txt := strings.Join(parts, "\n")
+		txt = strings.TrimSuffix(strings.TrimSuffix(txt, "$"), "\\0")
+		f := []string{x.Fields[1], x.Fields[2], x.Fields[3], "f", x.Fields[5], x.Fields[6]}
+		if msg := CheckFmt(f, "OK:"+Hex(txt)); msg != "" {
+			return fmt.Sprintf("format() with maxLineLength=%s cursorOverlapWidth=%s numLines=%s (font %s): %s; emitted %q", x.Fields[2], x.Fields[3], x.Fields[5], x.Fields[4], msg, txt)
+		}
+	}
+	return ""
 }
